@@ -64,6 +64,11 @@ func H_bpm() {
 	// ---- symbolic overrides
 	for o := 0; o < nOver; o++ {
 		j := vInt(fmt.Sprintf("slot%d", o), 0, nSlots-1)
+		if bind2 && o == 0 {
+			// with the second direct binding the (first) override is spent on that binding's interface:
+			// it may coincide with any other source's type, in particular with the first binding's
+			vAssume(j == sBT2)
+		}
 		x := vInt(fmt.Sprintf("id%d", o), 0, U-1)
 		for s := range slots {
 			slots[s].id = vIte(j == s, x, slots[s].id)
